@@ -33,8 +33,10 @@ def cases(tier, seed):
         c = [r.choice([r.randrange(4), r.randrange(2**70)]) for _ in range(3)]
         m = [x if r.random() < 0.4 else r.choice([r.randrange(4), r.randrange(2**70)]) for x in c]
         yield {"c": c, "m": m}
-    # the version of files written by the package
-    yield {"c": [1, 0, 0], "m": [1, 0, 0], "written": True}
+    # the version of files written by the package: several files, every creating mode, at paths that the package has seen
+    # before holding an EMD file / a non-EMD file / nothing (common.fresh_path gives each path such a history)
+    for k in range(9):
+        yield {"c": [1, 0, 0], "m": [1, 0, 0], "written": True, "mode": ["w", "o", "a"][k % 3], "k": k}
 
 
 def impl(case):
@@ -43,9 +45,12 @@ def impl(case):
         # the version reported for a file the package writes
         import numpy as np
         p = common.fresh_path()
-        with common.quiet():
-            emdfile.save(p, emdfile.Array(np.zeros(2)))
-        v = emdfile._get_EMD_version(p)
+        try:
+            with common.quiet():
+                emdfile.save(p, emdfile.Array(np.zeros(2)), mode=case.get("mode", "w"))
+            v = emdfile._get_EMD_version(p)
+        except Exception as e:
+            return {"r": False, "no_version_reported_for_a_file_the_package_wrote": type(e).__name__}
         return {"r": bool(emdfile._version_is_geq(v, (1, 0, 0))) and list(v) == case["c"]}
     return {"r": bool(emdfile._version_is_geq(tuple(case["c"]), tuple(case["m"])))}
 
